@@ -322,6 +322,8 @@ def check(an: Analysis) -> None:
                         continue
                     p = parent(n)
                     ok = fi is None and m is mod and isinstance(p, (ast.Assign, ast.AnnAssign)) and dotted(p.targets[0] if isinstance(p, ast.Assign) else p.target) == "MISSING"
+                    if not ok and r == cls.qualname and not n.args and not n.keywords and any(isinstance(a_, ast.Assert) for a_ in _anc(n)):
+                        ok = True  # `assert Missing() is MISSING`: calling the class goes through MissingType.__call__ (C20.1) and the result is only compared
                     if fi is not None:
                         ob.inst(fi, n)
                     else:
@@ -361,3 +363,10 @@ def _borrowed_c04(an: Analysis) -> None:
     from . import c04
 
     borrow(an, c04.check, {"C04.6": "C20.6"})
+
+
+def _anc(n: ast.AST):
+    from ..loader import ancestors
+
+    return ancestors(n)
+
